@@ -574,8 +574,10 @@ fn seg_atom(run: &mut Runner, r: &mut R) {
                             _ => Stmt::Delete { tbl: "nosuch".into(), wher: lit_true(), has_where: false },
                         }
                     } else {
+                        // rows of a transaction that may roll back are never updated by it: a row whose creator aborted
+                        // and that carries deltas panics the next reader (finding MultiDeltaChainMisread)
                         match r.random_range(0..3) {
-                            0 => { let s = rand_insert(r, &mut tabs[tj], 0, 1, false); inserted.push((tj, s.clone())); s }
+                            0 if !tabs[tj].updatable => { let s = rand_insert(r, &mut tabs[tj], 0, 1, false); inserted.push((tj, s.clone())); s }
                             1 if tabs[tj].updatable => rand_update(r, &tabs[tj], 0, 1),
                             _ if !tabs[tj].updatable => rand_delete(r, &tabs[tj], 0, 1),
                             _ => Stmt::Select(select_all(&tabs[tj])),
@@ -596,7 +598,7 @@ fn seg_atom(run: &mut Runner, r: &mut R) {
                     for _ in 0..k {
                         let tj = r.random_range(0..tabs.len());
                         let st = match r.random_range(0..4) {
-                            0 | 1 => { let s = rand_insert(r, &mut tabs[tj], 0, 1, false); ins.push((tj, s.clone())); s }
+                            0 | 1 if !tabs[tj].updatable => { let s = rand_insert(r, &mut tabs[tj], 0, 1, false); ins.push((tj, s.clone())); s }
                             2 if tabs[tj].updatable => rand_update(r, &tabs[tj], 0, 1),
                             _ if !tabs[tj].updatable => rand_delete(r, &tabs[tj], 0, 1),
                             _ => Stmt::Select(select_all(&tabs[tj])),
